@@ -242,87 +242,12 @@ def view(reply, ts_keys, extra_mask=None):
 
 
 # ---------------------------------------------------------------------------------------------
-# known finding C06N1: default object repr (memory address) of ConstraintChain inside a HolographicValue
+# known findings: none open.  (C06N1 — default object repr of ConstraintChain inside a HolographicValue reached the
+# routing value_hash and the markdown projection — was fixed in /repo by commit 0b0d621; its witness lives on in
+# corpus/C06/ and is replayed first on every run.)  CLASSES maps `class=` names of open findings to predicates.
 # ---------------------------------------------------------------------------------------------
 
-def _holo_paths(text):
-    """[(block key or '', field key)] of assignments whose value contains a HolographicValue that carries a
-    constraint chain, in the document `text` (parsed leniently, as the tools do)."""
-    from octave_mcp.core.ast_nodes import Assignment, Block, HolographicValue, InlineMap, ListValue, Section
-    from octave_mcp.core.parser import parse_with_warnings
-    try:
-        doc, _ = parse_with_warnings(text)
-    except Exception:
-        return []
-    hits = []
-
-    def has(v):
-        if isinstance(v, HolographicValue):
-            return v.constraints is not None
-        if isinstance(v, ListValue):
-            return any(has(x) for x in v.items)
-        if isinstance(v, InlineMap):
-            return any(has(x) for x in v.pairs.values())
-        if isinstance(v, (list, tuple)):
-            return any(has(x) for x in v)
-        if isinstance(v, dict):
-            return any(has(x) for x in v.values())
-        return False
-
-    def walk(nodes, owner):
-        for n in nodes:
-            if isinstance(n, Assignment) and has(n.value):
-                hits.append((owner, n.key))
-            elif isinstance(n, (Block, Section)):
-                walk(n.children, n.key)
-    for k, v in (doc.meta or {}).items():
-        if has(v):
-            hits.append(("META", k))
-    walk(doc.sections, "")
-    return hits
-
-
-def default_repr_of_constraint_chain(call):
-    """class predicate of C06N1 (input-based): the call stringifies a HolographicValue carrying a constraint chain —
-    (a) validate / write / Validator API with a schema, where the document holds such a value in a field of the
-        block named like the schema (the field's value is routed and hashed as sha256(str(value))), or
-    (b) eject / project to markdown of a document holding such a value anywhere.
-    Returns the list of affected (block, field) pairs, or [] when the call is outside the class."""
-    a = call.get("args") or {}
-    docs = []
-    if isinstance(a.get("content"), str):
-        docs.append(a["content"])
-    for rel, text in (call.get("files") or {}).items():
-        docs.append(text)
-    tool = call.get("tool")
-    hits = [h for d in docs for h in _holo_paths(d)]
-    if not hits:
-        return []
-    if tool == "eject" and a.get("format") == "markdown":
-        return hits
-    if tool == "api" and call.get("fn") == "validate_inline":
-        return hits          # the schema is given inline; its name is whatever the schema text says
-    schema = a.get("schema")
-    if tool in ("validate", "write") or (tool == "api" and call.get("fn") == "validate_api"):
-        if isinstance(schema, str):
-            return [h for h in hits if h[0] == schema or (schema.startswith("frozen@") or schema == "latest")]
-    return []
-
-
-def n1_mask(paths):
-    fields = {f"{b}.{k}" for b, k in paths} | {k for _b, k in paths}
-
-    def m(env):
-        for lk in ("routing_log", "routing"):
-            for ent in env.get(lk) or []:
-                if isinstance(ent, dict) and (ent.get("source_path") in fields or str(ent.get("source_path", "")).split(".")[-1] in fields):
-                    ent["value_hash"] = "<C06N1>"
-        if isinstance(env.get("output"), str):
-            env["output"] = ADDR_RE.sub(" object at 0x<C06N1>", env["output"])
-    return m
-
-
-CLASSES = {"default_repr_of_constraint_chain": default_repr_of_constraint_chain}
+CLASSES = {}
 
 
 # ---------------------------------------------------------------------------------------------
@@ -374,12 +299,18 @@ def run(ctx: vlib.Ctx):
     if vlib.fingerprints_changed(ctx.prop, ANCHORS):
         ctx.widen = max(ctx.widen, 8)
         ctx.notes.append("fingerprint of an anchored function changed: search widened")
+    gen_text = (vlib.LEAN / PROJECT / "Octave" / "Gen" / "Effects.lean").read_text()
+    want_hash = (re.search(r'def genHash : String := "([0-9a-f]+)"', gen_text) or [None, None])[1]
     drv = proj.driver()
     facts = drv.batch([{"op": "facts"}])[0]
+    if facts.get("gen_hash") != want_hash:      # the driver binary is older than the regenerated summary: rebuild it
+        proj.build(["driver"])
+        facts = drv.batch([{"op": "facts"}])[0]
+        if facts.get("gen_hash") != want_hash:
+            raise vlib.Infra(f"driver binary does not match Gen/Effects.lean ({facts.get('gen_hash')} vs {want_hash})")
     ctx.extra["summary_facts"] = facts
     ctx.n_facts = 0      # the `decide` facts over Gen.summary are theorems of Props/C06 and counted there
     # timestamp keys: read from the generated summary (the only fields the view masks)
-    gen_text = (vlib.LEAN / PROJECT / "Octave" / "Gen" / "Effects.lean").read_text()
     m = re.search(r"def timestampKeys[^\n]*\n\s*\[(.*)\]", gen_text)
     ts_keys = sorted(set(re.findall(r'"routing\.py", "[^"]*", "([^"]+)"\)', m.group(1)))) if m else []
     ts_keys = ts_keys or ["timestamp"]
@@ -446,6 +377,14 @@ def _run(ctx, drv, lab, ts_keys):
             ctx.known_reproduced.append((f, f"{len(set(outs))} distinct masked envelopes in {len(outs)} runs of the witness"))
         elif not in_class:
             ctx.notes.append(f"witness of {f['id']} is no longer inside its class predicate")
+    # ---- corpus: witnesses of past findings, served before anything else -------------------------------------------
+    corpus = []
+    for p in sorted((vlib.VERIF / "corpus" / ctx.prop).glob("*.json")):
+        corpus.append(dict(json.loads(p.read_text()), flavour="corpus:" + p.stem))
+    for k, c in enumerate(corpus):
+        c["id"] = len(calls) + k
+    calls = calls + corpus
+    byid = {c["id"]: c for c in calls}
     lap("known-findings")
     # ---- reference run: a fresh process for every call ---------------------------------------------------
     # a fresh process for EVERY call: a cold start (1 s of imports) for the first 24 (quick) / 100 (thorough) calls, for the
@@ -456,11 +395,8 @@ def _run(ctx, drv, lab, ts_keys):
         more, _ = execute(calls[solo:], dict(ref_cfg, fork=vlib.NCPU if ctx.thorough else 4), lab, 0)
         ref.update(more)
     ref_view = {}
-    kf_paths = {}
     for c in calls:
-        paths = default_repr_of_constraint_chain(c)
-        kf_paths[c["id"]] = paths
-        ref_view[c["id"]] = view(ref[c["id"]][0], ts_keys, n1_mask(paths) if paths else None)
+        ref_view[c["id"]] = view(ref[c["id"]][0], ts_keys)
         try:
             env = json.loads(ref[c["id"]][0]["out"])
         except Exception:
@@ -478,9 +414,8 @@ def _run(ctx, drv, lab, ts_keys):
             ctx.count("ref:>=2-unknown-field-reports")
         if ADDR_RE.search(ref[c["id"]][0]["out"]):
             ctx.count("ref:address-in-envelope")
-            if not paths:
-                ctx.failures.append({"case": strip_call(c), "why": "the envelope contains a memory address (default object repr) — it cannot be the same in another process",
-                                     "why_class": "address-leak", "observed": ADDR_RE.findall(ref[c["id"]][0]["out"])[:3]})
+            ctx.failures.append({"case": strip_call(c), "why": "the envelope contains a memory address (default object repr) — it cannot be the same in another process",
+                                 "why_class": "address-leak", "observed": ADDR_RE.findall(ref[c["id"]][0]["out"])[:3]})
 
     lap("reference")
     # ---- the matrix ------------------------------------------------------------------------------------------
@@ -509,7 +444,7 @@ def _run(ctx, drv, lab, ts_keys):
             results = list(ex.map(one_cfg, batch))
         ran += len(batch)
         for cfg, out in results:
-            compare_cfg(ctx, cfg, out, calls, ref, ref_view, kf_paths, ts_keys, state_changes)
+            compare_cfg(ctx, cfg, out, calls, ref, ref_view, ts_keys, state_changes)
     ctx.extra["configurations_run"] = ran
     if todo:
         ctx.notes.append(f"matrix stopped after {ran} of {len(cfgs)} configurations: a failing input had been found")
@@ -549,34 +484,27 @@ def _run(ctx, drv, lab, ts_keys):
                                            "impl": f"a callable that reads the environment ({e[2]}) was called here", "view": "environment reads"})
     for c in sub:     # the instrumented code must behave like the plain code
         for rep in iout[c["id"]]:
-            paths = kf_paths[c["id"]]
-            if view(rep, ts_keys, n1_mask(paths) if paths else None) != ref_view[c["id"]]:
+            if view(rep, ts_keys) != ref_view[c["id"]]:
                 ctx.failures.append({"case": strip_call(c), "why_class": f"differs:{c['tool']}:instrumented",
                                      "why": "masked envelope differs between the reference and the instrumented long-lived run (seed=random, cwd=decoy, locale=C)",
                                      "configuration": icfg, "reference": ref_view[c["id"]][:3000],
-                                     "observed": view(rep, ts_keys, n1_mask(paths) if paths else None)[:3000]})
+                                     "observed": view(rep, ts_keys)[:3000]})
     lap("instrumented")
     ctx.extra["calls"] = len(calls)
-    ctx.extra["calls_in_C06N1_class"] = sum(1 for v in kf_paths.values() if v)
-    # classify failures against the open findings' classes (the C06N1 normaliser above already confines what may differ)
+    # no finding is open for C06, so there is no class to put a failure in: every failure is reported
     ctx.failures = dedupe_failures(ctx.failures)
 
 
-def compare_cfg(ctx, cfg, out, calls, ref, ref_view, kf_paths, ts_keys, state_changes):
+def compare_cfg(ctx, cfg, out, calls, ref, ref_view, ts_keys, state_changes):
     name = cfg_name(cfg)
     for c in calls:
         reps = out.get(c["id"])
         if not reps:
             raise vlib.Infra(f"no reply for call {c['id']} in {name}")
-        paths = kf_paths[c["id"]]
         for k, rep in enumerate(reps):
             case = {"call": c["id"], "cfg": name, "pass": k}
             ctx.case(case, nontrivial='"E_INPUT"' not in ref[c["id"]][0]["out"])
-            got = view(rep, ts_keys, n1_mask(paths) if paths else None)
-            if paths:
-                raw_equal = view(rep, ts_keys) == view(ref[c["id"]][0], ts_keys)
-                if not raw_equal:
-                    ctx.known_hits["C06N1"] = ctx.known_hits.get("C06N1", 0) + 1
+            got = view(rep, ts_keys)
             if got != ref_view[c["id"]]:
                 ctx.failures.append({
                     "case": strip_call(c), "why_class": f"differs:{c['tool']}:{cfg['mode']}",
@@ -603,9 +531,7 @@ def replay(ctx, lab, ts_keys):
     others = [dict(strip_call(c), id=c["id"] + 1) for c in
               effects_calls.gen_calls(random.Random(f"c06-{data.get('seed', 0)}"), 200, [], {"ref": lab.frozen_ref, "text": FROZEN_TEXT})]
     ref_cfg = {"seed": "0", "cwd": "repo", "locale": "C.UTF-8", "mode": "fresh", "batch": 1, "home": 0}
-    paths = default_repr_of_constraint_chain(case)
-    msk = n1_mask(paths) if paths else None
-    want = view(run_worker([{"cmd": "call", "call": case}], ref_cfg, lab)[0], ts_keys, msk)
+    want = view(run_worker([{"cmd": "call", "call": case}], ref_cfg, lab)[0], ts_keys)
     rng = random.Random(f"replay-{data.get('seed', 0)}")
     if cfg["mode"] == "fresh":
         reps = run_worker([{"cmd": "call", "call": case}], cfg, lab)
@@ -620,7 +546,7 @@ def replay(ctx, lab, ts_keys):
         rng.shuffle(chunk)
         reps = [r for r in run_worker([{"cmd": "gather", "calls": chunk}], cfg, lab) if r["id"] == case["id"]]
     for k, rep in enumerate(reps):
-        got = view(rep, ts_keys, msk)
+        got = view(rep, ts_keys)
         ctx.case({"replay": ctx.replay, "pass": k})
         if got != want:
             ctx.failures.append({"case": strip_call(case), "why_class": f"differs:{case['tool']}:{cfg['mode']}",
